@@ -84,7 +84,7 @@ def strat_page():
                 geom = draw(line_geometry(x0=x0, y=y + 45))
                 y += 80
                 lines.append(dict(geom=geom, text=draw(text_strategy()), seed=draw(st.integers(0, 2 ** 31 - 1)),
-                                  logits=draw(st.sampled_from(["peaky", "peaky", "peaky", "onehot", "diffuse", "short", "absent", "nochars"])),
+                                  logits=draw(st.sampled_from(["peaky", "peaky", "peaky", "onehot", "diffuse", "short", "absent", "nochars", "per_char"])),
                                   window=draw(st.sampled_from(["exact", "exact", "none", "whole"])),
                                   prev_conf=draw(st.sampled_from([None, None, 0.9, 0.1]))))
             y += 30
@@ -120,6 +120,14 @@ def build(case):
                 if need > 2:
                     line.logits = line.logits[:max(1, need - 2)]
                     line.logit_coords = [0, line.logits.shape[0]]
+            elif mode == "per_char" and text:
+                # a recogniser that emits one output row per character (transformer decoder), with close runners-up
+                rs = np.random.RandomState(l["seed"])
+                cmap = {c: i for i, c in enumerate(chars[:-1])}
+                labels = [cmap.get(ch, 0) for ch in text]
+                dense = logits_for_path(labels, len(chars), rs, confuse=0.7, peak=(1.0, 6.0), overshoot=0.5)
+                line.logits = sparsify(dense)
+                line.logit_coords = [0, len(labels)]
             elif mode == "absent":
                 line.logits = None
                 line.logit_coords = None
@@ -229,6 +237,8 @@ def body_page(ctx, case):
             if arab:
                 words = [ah.label_form_to_string(w) for w in words]
             conf = wline.transcription_confidence
+            ctx.check(conf is None or (0.0 <= float(conf) <= 1.0 + 1e-9), "line_confidence_out_of_range_after_export",
+                      lambda: "line %s: %r; " % (line.id, conf) + desc())
             dropped_ok = conf is not None and conf < thr
             exp.append(dict(id=line.id, words=words, may_drop=dropped_ok, must_keep=not dropped_ok, text=t, arab=arab,
                             mode=[l for r in case["regions"] for l in r["lines"]][int(line.id[1:])]["logits"]))
